@@ -48,6 +48,42 @@ func reachBlocks(b *ssa.BasicBlock, next func(*ssa.BasicBlock) []*ssa.BasicBlock
 	return seen
 }
 
+// loopOf returns the innermost natural loop containing b: its header and body (nil if b is
+// in no loop). A natural loop of a back edge u→h (h dominates u) is h plus every block that
+// reaches u without passing through h.
+func loopOf(b *ssa.BasicBlock) (*ssa.BasicBlock, map[*ssa.BasicBlock]bool) {
+	fn := b.Parent()
+	var bestH *ssa.BasicBlock
+	var best map[*ssa.BasicBlock]bool
+	for _, h := range fn.Blocks {
+		body := map[*ssa.BasicBlock]bool{}
+		for _, u := range h.Preds {
+			if !h.Dominates(u) {
+				continue
+			}
+			// collect nodes reaching u without passing h
+			body[h] = true
+			st := []*ssa.BasicBlock{u}
+			for len(st) > 0 {
+				x := st[len(st)-1]
+				st = st[:len(st)-1]
+				if body[x] {
+					continue
+				}
+				body[x] = true
+				st = append(st, x.Preds...)
+			}
+		}
+		if len(body) == 0 || !body[b] {
+			continue
+		}
+		if best == nil || len(body) < len(best) {
+			best, bestH = body, h
+		}
+	}
+	return bestH, best
+}
+
 // loopHeader: the block of the cycle that dominates all others.
 func loopHeader(scc map[*ssa.BasicBlock]bool) *ssa.BasicBlock {
 	for h := range scc {
